@@ -68,7 +68,26 @@ inductive Qry where
   | lGroups (id : Nat)     -- link collection, things side
   | lMembers (g : Nat)     -- link collection, groups side
   | load (id : Nat)        -- LoadById
+  -- round 2: the empty filter, per-reader paging set on the parsed query object, externally computed symbols
+  | qAll                          -- QueryIds  ""                                   (ast.Parse builds a fresh query node per call)
+  | qPage (skip limit : Nat)      -- q := ast.Parse(store, ""); q.SetSkip(skip) if skip > 0; q.SetLimit(limit) if limit > 0; QueryIdsC(tx, q)
+  | qRankPage (n skip limit : Nat)  -- the same on  rank >= n  (the filter text query K<n> uses)
+  | qEven (b : Nat)               -- QueryIds  even = true / false      (NewBoolFuncSymbol: id ↦ id even; b = 1 for true)
+  | qEvenRank (b n : Nat)         -- QueryIds  even = … and rank >= n
+  | qExt (n : Nat)                -- QueryIds  ext = "x<n>"             (NewStringFuncSymbol: id ↦ nil if id % 4 = 3, else "x<id % 3>")
+  | vEven (a b : Nat)             -- even.Eval(tx, a<a>) held, even.Eval(tx', a<b>) in a second read transaction, then both decoded
+  | vExt (a b : Nat)              -- the same for ext; 9 codes nil
   deriving DecidableEq, Repr
+
+/-- the externally computed symbols of the harness' store: pure functions of the row id -/
+def extEven (id : Nat) : Bool := id % 2 == 0
+def extStr (id : Nat) : Option Nat := if id % 4 == 3 then none else some (id % 3)
+def extStrCode (id : Nat) : Nat := match extStr id with | some k => k | none => 9
+
+/-- skip / limit as the scanners apply them to an unsorted scan (ids ascending); `limit = 0` codes "no SetLimit call" -/
+def page (skip limit : Nat) (ids : List Nat) : List Nat :=
+  let d := ids.drop skip
+  if limit == 0 then d else d.take limit
 
 /-- insertion into a list ordered by (rank descending, id ascending) -/
 def insertTop (e : Ent) : List Ent → List Ent
@@ -88,6 +107,14 @@ def evalQ (q : Qry) (v : Ver) : List Nat :=
   | .lGroups id => match findEnt id v with | some e => e.groups | none => []
   | .lMembers g => (v.filter (·.groups.contains g)).map (·.id)
   | .load id => match findEnt id v with | some e => 1 :: e.name :: e.rank :: e.roles | none => [0]
+  | .qAll => v.map (·.id)
+  | .qPage sk l => page sk l (v.map (·.id))
+  | .qRankPage n sk l => page sk l ((v.filter (n ≤ ·.rank)).map (·.id))
+  | .qEven b => (v.filter (fun e => extEven e.id == (b == 1))).map (·.id)
+  | .qEvenRank b n => (v.filter (fun e => extEven e.id == (b == 1) && n ≤ e.rank)).map (·.id)
+  | .qExt n => (v.filter (fun e => extStr e.id == some n)).map (·.id)
+  | .vEven a b => [if extEven a then 1 else 0, if extEven b then 1 else 0]
+  | .vExt a b => [extStrCode a, extStrCode b]
 
 /-- the committed transactions of a case (aborted ones contribute nothing) -/
 def committedTxs (txs : List (Bool × List WOp)) : List (List WOp) :=
